@@ -450,7 +450,7 @@ class ActionLink(Action):
 
     @staticmethod
     def strip_link_target_keys(parser, cfg):
-        def del_target_key(target_key):
+        def del_target_key(target_key, cfg=cfg):
             cfg.pop(target_key, None)
             if "." not in target_key:
                 return
@@ -463,8 +463,14 @@ class ActionLink(Action):
         from ._typehints import ActionTypeHint
 
         for action in [a for a in parser._actions if isinstance(a, ActionTypeHint) and hasattr(a, "sub_add_kwargs")]:
+            value = cfg.get(action.dest)
             for key in action.sub_add_kwargs.get("linked_targets", []):
-                del_target_key(f"{action.dest}.init_args.{key}")
+                if isinstance(value, list):
+                    for item in value:
+                        if isinstance(item, Namespace):
+                            del_target_key(f"init_args.{key}", item)
+                else:
+                    del_target_key(f"{action.dest}.init_args.{key}")
 
         with _ActionSubCommands.not_single_subcommand():
             subcommands, subparsers = _ActionSubCommands.get_subcommands(parser, cfg)
